@@ -165,6 +165,8 @@ func (x *Exec) assumeLeafFacts(st *State, tm Term, l Leaf, full bool) {
 
 func (x *Exec) sliceFacts(st *State, s *SliceV) {
 	st.assume(And(Ge(s.Off, TZero), Ge(s.Len, TZero), Le(s.Len, s.Cap), Ge(s.Ptr, TZero), Lt(s.Ptr, st.alloc)))
+	// a slice with capacity has a backing array (nil slices have ptr 0)
+	st.assume(Imp(Gt(s.Cap, TZero), Gt(s.Ptr, TZero)))
 }
 
 func (x *Exec) symbolic(st *State, t types.Type, hint string, full bool) Value {
@@ -373,6 +375,9 @@ func (x *Exec) load(st *State, l *Loc) Value {
 	case LElem:
 		return x.loadObj(st, "A", l.Root, l.Ref, l.Idx, pathString(l.Root, l.Path), l.Typ)
 	case LGlobal:
+		if x.initMode && strings.HasSuffix(l.Global, ".init$guard") {
+			return &Prim{T: TFalse}
+		}
 		prefix := pathString(l.Root, l.Path)
 		v := buildValue(l.Typ, func(lf Leaf) Term {
 			key := "V|" + l.Global + "|" + join(prefix, lf.Path)
@@ -710,7 +715,7 @@ func (x *Exec) nilCheck(st *State, p *PtrV, pos token.Pos) {
 		x.endPath(st, "panic")
 		panic(pathEnd{})
 	}
-	if p.Loc.Kind == LObj || p.Loc.Kind == LElem {
+	if p.Loc.Kind == LObj {
 		if _, ok := isIntLit(p.Loc.Ref); !ok {
 			if !st.knownNonNil(p.Loc.Ref) {
 				x.safety(st, "nil", Not(Eq(p.Loc.Ref, TZero)), pos)
@@ -893,7 +898,55 @@ func (x *Exec) loopClauses(fr *Frame, li *loopInfo) []*Clause {
 	return out
 }
 
+// rangeBound recognises the header of a range-over-slice/int loop in naive SSA
+// (t = *rangeindex; t' = t+1; *rangeindex = t'; if t' < n) and returns the automatic invariant
+// -1 <= rangeindex && rangeindex+1 <= max(n, 0).
+func (x *Exec) rangeBound(fr *Frame, st *State, li *loopInfo) (Term, bool) {
+	h := li.header
+	if len(h.Instrs) == 0 {
+		return Term{}, false
+	}
+	iff, ok := h.Instrs[len(h.Instrs)-1].(*ssa.If)
+	if !ok {
+		return Term{}, false
+	}
+	cmp, ok := iff.Cond.(*ssa.BinOp)
+	if !ok || cmp.Op != token.LSS {
+		return Term{}, false
+	}
+	add, ok := cmp.X.(*ssa.BinOp)
+	if !ok || add.Op != token.ADD {
+		return Term{}, false
+	}
+	ld, ok := add.X.(*ssa.UnOp)
+	if !ok || ld.Op != token.MUL {
+		return Term{}, false
+	}
+	al, ok := ld.X.(*ssa.Alloc)
+	if !ok || al.Comment != "rangeindex" {
+		return Term{}, false
+	}
+	id, ok := fr.cellOf[al]
+	if !ok {
+		return Term{}, false
+	}
+	c := st.cells[id]
+	if c == nil || c.Mat {
+		return Term{}, false
+	}
+	nv, ok := fr.env[cmp.Y]
+	if !ok {
+		return Term{}, false
+	}
+	n := nv.(*Prim).T
+	ri := c.V.(*Prim).T
+	return And(Le(IntLit(-1), ri), Le(Add(ri, TOne), app(SInt, "imax", n, TZero))), true
+}
+
 func (x *Exec) checkInvariants(fr *Frame, st *State, li *loopInfo, kind string, run *loopRun) {
+	if t, ok := x.rangeBound(fr, st, li); ok {
+		x.oblige(st, kind, fmt.Sprintf("loop%d:auto-range-bound", li.ordinal), t, nil, token.NoPos)
+	}
 	for _, cl := range x.loopClauses(fr, li) {
 		ev := x.newEval(fr, st, run)
 		t := ev.boolExpr(cl.Expr)
@@ -902,6 +955,9 @@ func (x *Exec) checkInvariants(fr *Frame, st *State, li *loopInfo, kind string, 
 }
 
 func (x *Exec) assumeInvariants(fr *Frame, st *State, li *loopInfo, run *loopRun) {
+	if t, ok := x.rangeBound(fr, st, li); ok {
+		st.assume(t)
+	}
 	for _, cl := range x.loopClauses(fr, li) {
 		ev := x.newEval(fr, st, run)
 		st.assume(ev.boolExpr(cl.Expr))
